@@ -385,7 +385,9 @@ type c08HsCfg struct {
 	Fault string // cancel | close
 }
 
-func (c c08HsCfg) name() string { return fmt.Sprintf("c08/handshake/%s/%s/%s", c.Mode, c.Stall, c.Fault) }
+func (c c08HsCfg) name() string {
+	return fmt.Sprintf("c08/handshake/%s/%s/%s", c.Mode, c.Stall, c.Fault)
+}
 
 func c08HsConfigs() []c08HsCfg {
 	var out []c08HsCfg
@@ -402,7 +404,9 @@ func c08HsConfigs() []c08HsCfg {
 func c08Handshake(prefix []int, cfg c08HsCfg) explore.Outcome {
 	var viol []explore.Violation
 	obs := &hx.Log{}
-	k := func(kind string) string { return fmt.Sprintf("%s:handshake:%s:%s:%s", kind, cfg.Mode, cfg.Stall, cfg.Fault) }
+	k := func(kind string) string {
+		return fmt.Sprintf("%s:handshake:%s:%s:%s", kind, cfg.Mode, cfg.Stall, cfg.Fault)
+	}
 	res := vsched.Run(cfgFor(prefix), func() {
 		ss := newScriptedServer(cfg.Mode)
 		gate := &hx.Flag{}
